@@ -137,3 +137,30 @@ func Trunc(s string, n int) string {
 	}
 	return s
 }
+
+// BuildChecked compiles main with kddp to an object file and links it against the ASan/UBSan build of
+// runtime and stdlib with the allocation ledger interposed on ddp_reallocate.
+func BuildChecked(dir, main, exe string, level int) (Result, string) {
+	obj := exe + ".o"
+	cr := Compile(dir, main, obj, "-O", fmt.Sprint(level))
+	if cr.Exit != 0 || cr.TimedOut {
+		return cr, "compile"
+	}
+	lr := LinkObject(dir, obj, exe, true, false, filepath.Join(Work, "obj/memledger.o"), "-Wl,--wrap=ddp_reallocate")
+	return lr, "link"
+}
+
+// ExecChecked runs a BuildChecked executable; stats = "allocations frees live peak".
+func ExecChecked(dir, exe string) (Result, [4]int64) {
+	stats := filepath.Join(dir, filepath.Base(exe)+".ledger")
+	os.Remove(stats)
+	r := run(dir, 30*time.Second, []string{"LOCPATH=" + Locale(), "VERIF_LEDGER_STATS=" + stats,
+		"ASAN_OPTIONS=exitcode=99:detect_leaks=1:abort_on_error=0:allocator_may_return_null=1", "UBSAN_OPTIONS=halt_on_error=1:exitcode=99:print_stacktrace=1", "LSAN_OPTIONS=exitcode=99"}, "", exe)
+	var st [4]int64
+	if b, err := os.ReadFile(stats); err == nil {
+		fmt.Sscanf(string(b), "%d %d %d %d", &st[0], &st[1], &st[2], &st[3])
+	}
+	return r, st
+}
+
+func IsLedgerReport(r Result) bool { return r.Exit == 97 || strings.Contains(r.Stderr, "VERIF-LEDGER") }
